@@ -91,6 +91,8 @@ def query_graph(F):
 
 
 def run(F, res, tier):
+    from rules import c14 as _c14u
+    _c14u.text_positions_are_counted_in_bytes(F, res, rule="Q19", crates=('syntax', 'ide'))   # engine U: no query slices a text at a character or UTF-16 count
     reviewed = R.load_reviewed().get("C10", {})
     ents = entries(F)
     res.floor("public Analysis queries", len(ents), 11)
